@@ -14,7 +14,7 @@ THEOREMS = [P + t for t in (
     "never_moves_outside", "stays_inside", "accept_rule", "counted_step_update", "H_sum", "flat_rule", "flat_only_at_schedule",
     "isFlat_iff", "stop_rule", "g_bookkeeping", "g_bookkeeping_flat", "bin_centres")]
 RULE = ("each case = one short seeded Wang-Landau run (sequence 8..14 residues, 3..6 bins, range inside [0,1], flat-check period "
-        "40..200, flatness criterion 1/8..1/2, convergence e^(1/8..1/2), capped at 1500 steps through the guarded hook) with a recording "
+        "40..200, flatness criterion 1/8..1/2, convergence e^(1/8..1/2), capped at 1500 steps through the guarded hook; plus runs with the flat check 6000 steps away, capped at 2600 steps, whose g passes 710 where exp(g) overflows) with a recording "
         "RNG; the per-step trace written by the hook is checked (oracle 1, no model): every proposal is a rearrangement of the input whose "
         "recorded kappa is its true kappa (exact model value) and whose bin is argmin|centre-kappa|; the state never moves to an "
         "out-of-range bin; an in-range proposal is accepted iff r < min(1, exp(g_old-g_new)) with r read from the RNG tape; g / H of the "
@@ -52,6 +52,12 @@ def cases(rng, tier):
         fc = rng.choice([4, 8])
         crit = rng.choice([Fraction(1, 2), Fraction(3, 4)])
         yield Case(["wlrun %s %d 0 1 %d %s 1/100 %d 1500 -" % (s, nb, fc, crit, rng.randint(0, 10 ** 6))], {"kind": "tiny-flatcheck"})
+    # a long first iteration at f = e (flat check far away, 2-3 bins): g grows past 710, where exp(g) itself overflows a double -
+    # the acceptance rule must still be min(1, exp(g_old - g_new))
+    for i in range(2 if tier == "quick" else 8):
+        s = rng.choice(["EKEKGGEKRDGG", "GEKGDKGEKG", "KEKEGGDRKE"])
+        nb = rng.choice([2, 3])
+        yield Case(["wlrun %s %d 0 1 6000 1/4 501/1000 %d 2600 -" % (s, nb, rng.randint(0, 10 ** 6))], {"kind": "long-first-iteration"})
     # sub-range requests whose bin width is a decimal fraction (1/width is not exactly representable)
     for lo, hi, nb in ((Fraction(1, 2), Fraction(4, 5), 3), (Fraction(1, 10), Fraction(2, 5), 3), (Fraction(3, 5), Fraction(9, 10), 3),
                        (Fraction(7, 10), Fraction(1), 3), (Fraction(1, 5), Fraction(4, 5), 6), (Fraction(3, 10), Fraction(9, 10), 6),
@@ -137,7 +143,7 @@ def judge(case, reals, gens, specs):
             bad("step %d: skip flag %r for bin %d with range %d..%d" % (k, st["skip"], st["idx_new"], cfg["rmin"], cfg["rmax"]))
         ra = racc[k]
         if inside:
-            ap = min(1.0, math.exp(g[cur] - g[st["idx_new"]]))
+            ap = 1.0 if g[cur] - g[st["idx_new"]] >= 0 else math.exp(g[cur] - g[st["idx_new"]])
             if abs(st["acceptProb"] - ap) > 1e-9:
                 bad("step %d: acceptProb %r, min(1,exp(g_old-g_new)) = %r" % (k, st["acceptProb"], ap))
             if ra is not None and abs(ra - ap) > 1e-12 and st["accepted"] != (ra < ap):
